@@ -49,21 +49,22 @@ var Full = Sched{Name: "full"}
 
 // Source is an instrumented io.Reader over data[:Cut] followed by Fail.
 type Source struct {
-	Data     []byte
-	Tail     int // virtual bytes after Data (position-coded), for huge pixel payloads
-	Cut      int // bytes delivered before the terminal condition
-	Fail     error
-	S        Sched
-	Pos      int
-	NReads   int
-	MaxReq   int
-	idx      int
-	ZeroNil  int    // number of (0, nil) results returned (never, by construction)
-	Rich     bool   // present as RichSource
-	Pre      []byte // foreign bytes before the call position (rich only)
-	Extra    int    // calls of methods other than Read
-	DrainBuf int    // size of the reads used to drain the returned stream (0: 32 KiB + 7)
-	Deliv    int    // bytes handed out in total, by whatever method (a rewound source has Pos < Deliv)
+	Data           []byte
+	Tail           int // virtual bytes after Data (position-coded), for huge pixel payloads
+	Cut            int // bytes delivered before the terminal condition
+	Fail           error
+	S              Sched
+	Pos            int
+	NReads         int
+	MaxReq         int
+	idx            int
+	ZeroNil        int    // number of (0, nil) results returned (never, by construction)
+	Rich           bool   // present as RichSource
+	Pre            []byte // foreign bytes before the call position (rich only)
+	Extra          int    // calls of methods other than Read
+	DrainBuf       int    // size of the reads used to drain the returned stream (0: 32 KiB + 7)
+	DrainCopyAfter int    // -1: Read to the end; k >= 0: Read k bytes, then io.Copy the rest
+	Deliv          int    // bytes handed out in total, by whatever method (a rewound source has Pos < Deliv)
 }
 
 func NewSource(data []byte, cut int, fail error, s Sched) *Source {
@@ -73,7 +74,7 @@ func NewSource(data []byte, cut int, fail error, s Sched) *Source {
 	if fail == nil {
 		fail = io.EOF
 	}
-	return &Source{Data: data, Cut: cut, Fail: fail, S: s}
+	return &Source{Data: data, Cut: cut, Fail: fail, S: s, DrainCopyAfter: -1}
 }
 
 // TailByte is the content of the virtual tail (never 0xFF, so it is inert
@@ -440,18 +441,31 @@ func Drain(o *Obs, stream io.Reader, src *Source) {
 	buf := make([]byte, bs)
 	pos, match, zero := 0, true, 0
 	limit := src.Cut + (1 << 20)
-	for {
-		n, err := stream.Read(buf)
-		for i := 0; i < n; i++ {
-			if match && (pos+i >= src.Cut || buf[i] != src.at(pos+i)) {
+	check := func(b []byte) {
+		for i := range b {
+			if match && (pos+i >= src.Cut || b[i] != src.at(pos+i)) {
 				match = false
 				o.Prefix = pos + i
 			}
 		}
-		pos += n
+		pos += len(b)
+	}
+	// DrainCopyAfter >= 0: read that many bytes with Read, then hand the rest to io.Copy (which
+	// uses the stream's WriteTo when it offers one) - the caller may consume the stream any way
+	for src.DrainCopyAfter < 0 || pos < src.DrainCopyAfter {
+		want := buf
+		if src.DrainCopyAfter >= 0 && src.DrainCopyAfter-pos < len(want) {
+			want = want[:src.DrainCopyAfter-pos]
+		}
+		n, err := stream.Read(want)
+		check(want[:n])
 		if err != nil {
 			o.FinalErr = errKind(err, src.Fail)
-			break
+			o.ReplayLen = pos
+			if match {
+				o.Prefix = pos
+			}
+			return
 		}
 		if n == 0 {
 			zero++
@@ -467,10 +481,38 @@ func Drain(o *Obs, stream io.Reader, src *Source) {
 			break
 		}
 	}
+	if o.FinalErr == "" {
+		w := &checkWriter{check: check, limit: limit, pos: &pos}
+		_, err := io.Copy(w, stream)
+		switch {
+		case err == errOverrun:
+			o.FinalErr = "overrun"
+		case err == nil:
+			o.FinalErr = "eof" // io.Copy reports a clean end of stream as nil
+		default:
+			o.FinalErr = errKind(err, src.Fail)
+		}
+	}
 	o.ReplayLen = pos
 	if match {
 		o.Prefix = pos
 	}
+}
+
+var errOverrun = errors.New("verif: replay longer than the input")
+
+type checkWriter struct {
+	check func([]byte)
+	limit int
+	pos   *int
+}
+
+func (w *checkWriter) Write(b []byte) (int, error) {
+	w.check(b)
+	if *w.pos > w.limit {
+		return len(b), errOverrun
+	}
+	return len(b), nil
 }
 
 // Compositions enumerates all ordered compositions of n (2^(n-1) of them) as
